@@ -125,7 +125,8 @@ class Runner:
         return jax.vmap(lambda k: env.observation_space.sample(key=k))(keys) if env.obs_kind == "box" else jax.vmap(lambda k: env.observation(env.initial(key=k), key=k))(keys)
 
     def gen(self, rng, prop: str) -> dict:
-        arch = {"f": rng.choice([4, 6]), "w": rng.choice([4, 8]), "d": rng.choice([1, 2])}
+        # size-1 dimensions included: a lenient loader could broadcast them onto a larger architecture
+        arch = {"f": rng.choice([1, 4, 6]), "w": rng.choice([1, 4, 8]), "d": rng.choice([1, 2])}
         spellings = ["m", "m.eqx", "sub/m", "a/b/c/m.eqx", "pathobj:m", "pathobj:x/y/m", "cwd:m", "nosuffix:m", "nosuffix:m.ckpt", "nosuffix:z/m.bin"]
         n_ops = rng.randint(2, 7)
         ops = []
